@@ -53,6 +53,8 @@ pub struct Item {
     /// a valid record of *another kind* that lives under the same record key (a scratchpad and a transaction set of
     /// one owner share their key): offered only once something of the family's kind is held, and must change nothing
     pub alien: bool,
+    /// scratchpads: identity of the payload (two owner-signed versions may carry the same counter); 0 otherwise
+    pub content: u64,
 }
 
 pub struct Fam {
@@ -65,6 +67,10 @@ fn proof_for(key: &RecordKey) -> ant_evm::ProofOfPayment {
     let now = SystemTime::now() - Duration::from_secs(30);
     let addr = rec::xorname_of_key(key);
     rec::proof(vec![(1, rec::quote(1, addr, now)), (2, rec::quote(2, addr, now)), (3, rec::quote(3, addr, now))])
+}
+
+fn pad_content(p: &Scratchpad) -> u64 {
+    (mc_core::key128(&rigs::fixtures::ScratchpadMirror::from_real(p).encrypted_data) >> 64) as u64
 }
 
 pub fn scratchpad_family() -> Fam {
@@ -82,6 +88,23 @@ pub fn scratchpad_family() -> Fam {
                 entries: BTreeSet::new(),
                 authentic,
                 alien: false,
+                content: pad_content(&p),
+            });
+        }
+        // a second owner-signed version with the SAME counter and other content (two devices writing from the same base):
+        // "applied only if its counter is strictly higher" — whichever of the two is stored first stays
+        if c <= 2 {
+            let p = rec::pad(OWNER, c, format!("pad-{c}-written-elsewhere").as_bytes(), OWNER);
+            let p2 = p.clone();
+            items.push(Item {
+                name: format!("pad(c={c},owner-signed,other-content)"),
+                plain: rec::pad_record(&p),
+                paid: Some(Arc::new(move |pr| rec::paid_pad_record(pr, &p2))),
+                counter: Some(c),
+                entries: BTreeSet::new(),
+                authentic: true,
+                alien: false,
+                content: pad_content(&p),
             });
         }
         // the genuine signature of the counter-1 version replayed on this counter and other content
@@ -99,6 +122,7 @@ pub fn scratchpad_family() -> Fam {
                 entries: BTreeSet::new(),
                 authentic: false,
                 alien: false,
+                content: 0,
             });
         }
         // a validly signed pad of ANOTHER owner presented under this key
@@ -118,6 +142,7 @@ pub fn scratchpad_family() -> Fam {
             entries: BTreeSet::new(),
             authentic: false,
             alien: false,
+            content: 0,
         });
     }
     // a valid transaction of the same owner: its address hashes the same public key, so it arrives under this very key
@@ -137,6 +162,7 @@ pub fn scratchpad_family() -> Fam {
             entries: BTreeSet::new(),
             authentic: false,
             alien: true,
+            content: 0,
         });
     }
     Fam { family: Family::Scratchpad, key, items }
@@ -177,6 +203,7 @@ pub fn transaction_family() -> Fam {
             entries: valid.clone(),
             authentic: !valid.is_empty(),
             alien: false,
+            content: 0,
         });
     }
     // a valid scratchpad of the same owner: its address hashes the same public key, so it arrives under this very key
@@ -196,6 +223,7 @@ pub fn transaction_family() -> Fam {
             entries: BTreeSet::new(),
             authentic: false,
             alien: true,
+            content: 0,
         });
     }
     Fam { family: Family::Transaction, key, items }
@@ -217,6 +245,7 @@ pub fn register_family() -> Fam {
             entries: idx.iter().cloned().collect(),
             authentic: true,
             alien: false,
+            content: 0,
         });
     }
     // a register whose owner signature is invalid (base signed by another key), carrying op 2
@@ -238,6 +267,7 @@ pub fn register_family() -> Fam {
         entries: BTreeSet::from([2]),
         authentic: false,
         alien: false,
+        content: 0,
     });
     Fam { family: Family::Register, key, items }
 }
@@ -246,7 +276,7 @@ pub fn register_family() -> Fam {
 #[derive(Clone, Debug, PartialEq, Eq)]
 pub enum Held {
     Nothing,
-    Pad { counter: u64, valid: bool, owner_ok: bool },
+    Pad { counter: u64, valid: bool, owner_ok: bool, content: u64 },
     Set(BTreeSet<usize>),
     Undecodable,
 }
@@ -260,7 +290,7 @@ pub fn observe(rig: &mut NodeRig, fam: &Fam) -> Held {
                 // validity judged independently of the code under test: BLS verification of the signing bytes
                 let m = rigs::fixtures::ScratchpadMirror::from_real(&p);
                 let valid = m.signature.as_ref().map(|sig| p.owner().verify(sig, rigs::fixtures::ScratchpadMirror::signing_bytes(m.counter, &m.encrypted_data))).unwrap_or(false);
-                Held::Pad { counter: p.count(), valid, owner_ok: rec::pad_key(&p) == fam.key }
+                Held::Pad { counter: p.count(), valid, owner_ok: rec::pad_key(&p) == fam.key, content: pad_content(&p) }
             }
             Err(_) => Held::Undecodable,
         },
@@ -289,12 +319,14 @@ pub fn observe(rig: &mut NodeRig, fam: &Fam) -> Held {
 pub struct Reference {
     pub held: bool,
     pub counter: u64,
+    /// payload identity of the version that set `counter`
+    pub content: u64,
     pub set: BTreeSet<usize>,
 }
 
 impl Reference {
     pub fn new() -> Reference {
-        Reference { held: false, counter: 0, set: BTreeSet::new() }
+        Reference { held: false, counter: 0, content: 0, set: BTreeSet::new() }
     }
     /// Apply one delivery. Returns whether the delivery is admissible at all.
     pub fn deliver(&mut self, fam: &Fam, item: &Item, path: Path) -> bool {
@@ -312,6 +344,7 @@ impl Reference {
                 let c = item.counter.unwrap();
                 if !self.held || c > self.counter {
                     self.counter = c;
+                    self.content = item.content;
                 }
                 self.held = true;
             }
@@ -327,7 +360,7 @@ impl Reference {
             return Held::Nothing;
         }
         match fam.family {
-            Family::Scratchpad => Held::Pad { counter: self.counter, valid: true, owner_ok: true },
+            Family::Scratchpad => Held::Pad { counter: self.counter, valid: true, owner_ok: true, content: self.content },
             _ => Held::Set(self.set.clone()),
         }
     }
@@ -453,6 +486,7 @@ impl System for SeqSys {
             let trig = match (&held, &want) {
                 (Held::Nothing, _) => "valid-delivery-not-stored",
                 (Held::Pad { counter: h, .. }, Held::Pad { counter: w, .. }) if h < w => "lower-counter-kept",
+                (Held::Pad { counter: h, valid: true, owner_ok: true, .. }, Held::Pad { counter: w, .. }) if h == w => "same-counter-other-content-applied",
                 (Held::Pad { .. }, Held::Pad { .. }) => "higher-counter-than-delivered",
                 (Held::Set(h), Held::Set(w)) if h.is_subset(w) => "entries-missing",
                 _ => "other",
@@ -473,7 +507,7 @@ fn conc_pairs(run: &Run, fam: Arc<Fam>, bound: usize) {
     // deliveries used for overlap: authentic items only, via the paths that need no contract call
     let auth: Vec<usize> = (0..fam.items.len()).filter(|i| fam.items[*i].authentic).collect();
     let pick: Vec<usize> = match fam.family {
-        Family::Scratchpad => auth.clone(), // counters 1,2,3
+        Family::Scratchpad => auth.iter().cloned().filter(|i| !fam.items[*i].name.contains("other-content")).collect(), // counters 1,2,3 (which of two equal counters is "first" is undefined under overlap)
         Family::Transaction => auth.iter().cloned().filter(|i| fam.items[*i].entries.len() == 1).collect(),
         Family::Register => auth.iter().cloned().filter(|i| fam.items[*i].entries.len() == 1).collect(),
     };
@@ -648,7 +682,7 @@ fn after_cache_rollover(run: &Run) {
 pub fn main(tier: Option<&str>) {
     let run = Run::new("C07", "model_checking", tier);
     run.rule(
-        "(seq) BFS, replay mode: deliveries of every item of a family (scratchpads: counters 1..3 x {owner-signed, other key, unsigned, foreign \
+        "(seq) BFS, replay mode: deliveries of every item of a family (scratchpads: counters 1..3 x {owner-signed, owner-signed with other content (counters 1, 2), other key, unsigned, foreign \
          owner under this key}; transactions: every vector of <=2 distinct entries (both orders) of a 5-entry pool incl. badly signed and foreign; registers: all 8 op subsets + forged; plus, against held content, a valid record of the *other* kind that shares the key (a scratchpad and a transaction set of one owner hash the same public key) \
          base) via {replication, unpaid update, paid upload} to one real Node, each run to quiescence; state = (held value, reference). \
          (rollover) per family two authentic deliveries, then 30 unrelated chunks so that the 25-entry read cache forgets the record, then the read and a re-delivery. (conc) every ordered pair of authentic single deliveries to one key, with and without prior content, both futures live: \
